@@ -105,6 +105,8 @@ def run(ctx):
             if r.returncode != 0:
                 for b in [l for l in r.stdout.splitlines() if ": E " in l][:3]:
                     ctx.broken("L-trace: pool bookkeeping transition not explained by RootP.step: " + b.split(": E ", 1)[1][:160])
+    # the main queue served by an event-driven run loop (tokens consumed by nested run-loop iterations inside items): no item stranded
+    run_traces(ctx, "c01_mainq_wake", [[ctx.seed * 10 + i, 400 if ctx.thorough else 120] for i in range(3 if ctx.thorough else 2)], None, None, "L-api event-driven main queue", "mainq-wake", timeout=300)
     ctx.cov["rule"] = ("tr_lane workloads (ping-pong with 2 threads on the serial queue: the DIRTY re-check workload; mixed async / sync / barrier / apply / suspend on both queues, "
                        "2-16 threads, perturbed at the atomic sites): every item must run exactly once, every sync call must return, no 20 s stall; every dq_state transition must be "
                        "a model step. Pool scenario: saturating burst, then ncpu+4 items blocked on a later item of the same global queue, then quiescence check of dgq_pending. "
